@@ -789,7 +789,7 @@ fn parse_content(value: &RawValue) -> Result<String, nom::Err<nom::error::Error<
 
 pub(crate) fn parse_rules(text: &str) -> IResult<&str, Vec<Declaration>> {
     separated_list0(
-        tuple((tag(";"), skip_optional_whitespace)),
+        tuple((skip_optional_whitespace, tag(";"), skip_optional_whitespace)),
         parse_declaration,
     )(text)
     .map(|(rest, v)| (rest, v.into_iter().flatten().collect()))
